@@ -190,11 +190,20 @@ Proof.
   unfold withdraw. intros H.
   apply bind_Some in H as (a & Ha & H).
   case_bool_decide as Hto; [discriminate|].
-  destruct (valid_denom d && (0 <? amt)%Z) eqn:Hv; [|discriminate]. cbn [negb] in H.
-  apply andb_true_iff in Hv as [Hd Hamt]. apply Z.ltb_lt in Hamt.
+  destruct (valid_denom d && (0 <? amt)%Z && (amt <? 18446744073709551616)%Z) eqn:Hv; [|discriminate]. cbn [negb] in H.
+  apply andb_true_iff in Hv as [Hv _]. apply andb_true_iff in Hv as [Hd Hamt]. apply Z.ltb_lt in Hamt.
   apply bind_Some in H as (b1 & Hb1 & H). apply bind_Some in H as (b2 & Hb2 & H).
   apply bind_Some in H as (base & Hbase & H). injection H as <- <-.
   exists a, b1, b2, base. auto 12.
+Qed.
+
+Lemma withdraw_uint64 c s sender to d amt s' r :
+  withdraw c s sender to d amt = Some (s', r) → (amt < 18446744073709551616)%Z.
+Proof.
+  unfold withdraw. intros H. apply bind_Some in H as (a & _ & H).
+  case_bool_decide; [discriminate|].
+  destruct (valid_denom d && (0 <? amt)%Z && (amt <? 18446744073709551616)%Z) eqn:Hv; [|discriminate].
+  apply andb_true_iff in Hv as [_ Hv]. by apply Z.ltb_lt in Hv.
 Qed.
 
 Lemma set_bridge_info_Some c s sender bi s' r :
